@@ -71,6 +71,7 @@ type Ctx struct {
 	seen    map[string]bool
 	dist    map[string]int
 	maxFail int
+	recent  []any
 }
 
 type result struct {
@@ -159,7 +160,30 @@ func (c *Ctx) IndexCase(table string, i int, cas any) {
 	c.res.CaseIndex[table][fmt.Sprint(i)] = cas
 }
 
+// Current records the case the implementation is about to be run on (with the two before it): should
+// the process die there (an unrecovered panic or a fatal runtime error in a goroutine of the library),
+// the check reports that case as the failing input instead of "no failing input found".
+func (c *Ctx) Current(cas any) {
+	c.recent = append(c.recent, cas)
+	if len(c.recent) > 3 {
+		c.recent = c.recent[len(c.recent)-3:]
+	}
+	m := map[string]any{"case": cas}
+	if n := len(c.recent); n > 1 {
+		m["previous"] = c.recent[:n-1]
+	}
+	b, err := json.Marshal(m)
+	if err != nil {
+		return
+	}
+	tmp := filepath.Join(c.Out, "current_case.json.tmp")
+	if os.WriteFile(tmp, b, 0o644) == nil {
+		_ = os.Rename(tmp, filepath.Join(c.Out, "current_case.json"))
+	}
+}
+
 func (c *Ctx) finish() error {
+	_ = os.Remove(filepath.Join(c.Out, "current_case.json"))
 	c.res.Dist = c.dist
 	if c.res.Samples == nil {
 		c.res.Samples = []any{}
